@@ -47,6 +47,29 @@ GROUPS['C08'] = [{
     },
 }]
 
+
+SHAPES = [('null', 'Null'), ('bool', 'Boolean(any bool)'), ('int', 'Integer(any i64)'), ('alias', 'Alias(any usize)'), ('bad', 'BadValue')]
+_c19 = {}
+for sh, desc in SHAPES:
+    _c19['c19_keeps_resolved_' + sh] = {'obl': 'parse_representation.keeps-resolved.' + sh, 'kind': 'bounded',
+        'bound': 'a single already-resolved leaf node of shape %s (full value range); unwinding bound 12 with unwinding assertions' % desc,
+        'what': 'Yaml::parse_representation returns true and leaves the node exactly as it was', 'tier': 'quick'}
+    _c19['c19_recursive_keeps_' + sh] = {'obl': 'parse_representation_recursive.keeps-resolved-leaf.' + sh, 'kind': 'bounded',
+        'bound': 'a single already-resolved leaf node of shape %s; containers are out of reach of CBMC (see DESIGN 9.2)' % desc,
+        'what': 'Yaml::parse_representation_recursive returns true and leaves the leaf exactly as it was', 'tier': 'quick'}
+    if sh != 'null':
+        for ty in ('yaml', 'marked', 'owned'):
+            _c19['c19_from_bare_%s_%s' % (ty, sh)] = {'obl': 'from_bare_yaml.%s.%s' % (ty, sh), 'kind': 'bounded',
+                'bound': 'a single leaf node of shape %s' % desc,
+                'what': '%s::from_bare_yaml keeps the data of the leaf' % {'yaml': 'Yaml', 'marked': 'MarkedYaml', 'owned': 'YamlOwned'}[ty], 'tier': 'quick'}
+_c19['c19_scalar_owned_round_trip'] = {'obl': 'scalar.into_owned.as_scalar', 'kind': 'bounded',
+    'bound': 'Null, Boolean(any), Integer(any i64), String("ab"); floats excluded (NaN != NaN)',
+    'what': 'Scalar -> ScalarOwned (into_owned) -> Scalar (as_scalar) gives back the same scalar', 'tier': 'quick'}
+_c19['c19_marked_eq_hash_ignore_span'] = {'obl': 'marked.eq-hash-ignore-span', 'kind': 'bounded',
+    'bound': 'two marked integer nodes with the same (symbolic) value and arbitrary symbolic spans; a recording Hasher',
+    'what': 'MarkedYaml == and Hash see the data only; MarkedYamlOwned with_span does not change equality', 'tier': 'quick'}
+GROUPS['C19'] = [{'crate': 'saphyr', 'appends': {'yaml.rs': 'yaml_harness.rs'}, 'timeout': 2400, 'harness_timeout': 600, 'harnesses': _c19}]
+
 CACHE = os.environ.get('VERIF_CACHE') or os.path.join(ROOT, '.cache')
 
 
@@ -99,7 +122,8 @@ def run(pid, tier, seed, scratch, repo):
             if probs:
                 undecided.append('kani fidelity mismatch (framework error): %s' % probs[0])
                 continue
-            r = runkani.run(cdir, sorted(hs), jobs=min(8, len(hs)), timeout=g.get('timeout', 3000))
+            r = runkani.run(cdir, sorted(hs), jobs=min(8, len(hs)), timeout=g.get('timeout', 3000),
+                            harness_timeout=g.get('harness_timeout'))
             r['cached'] = False
             if not r['timed_out'] and r['harnesses']:
                 os.makedirs(CACHE, exist_ok=True)
